@@ -182,12 +182,18 @@ def gen_stream(r):
     cmp_src = f"r.x {op} {const}" if pos == "L" else f"{const} {op} r.x"
     # the comparison inside a boolean context: a record lacking the field makes the COMPARISON false, which may make
     # the selector true (`not (...)`, `... or name(r) == ...`) - such records have to come out
-    ctx = r.weighted([(5, "bare"), (2, "not"), (2, "or_name"), (1, "and_has")])
+    # ... or inside a generator expression (a nested code object for the compiled engine), alone or next to a
+    # condition on a field every record has
+    ctx = r.weighted([(5, "bare"), (2, "not"), (2, "or_name"), (1, "and_has"), (1, "any_gen"), (1, "idx_and_any"),
+                      (1, "all_gen")])
     if op in ("in", "not in"):
         ctx = "bare"      # the recorded compiled-engine findings on membership would surface inverted under `not`
     lacks_name = nm("lacks")
     src = {"bare": cmp_src, "not": f"not ({cmp_src})", "or_name": f"({cmp_src}) or name(r) == '{lacks_name}'",
-           "and_has": f"has_field(r, 'x') and ({cmp_src})"}[ctx]
+           "and_has": f"has_field(r, 'x') and ({cmp_src})",
+           "any_gen": f"any(({cmp_src}) for i in (1,))",
+           "idx_and_any": f"r.idx >= 0 and any(({cmp_src}) for i in (1, 2))",
+           "all_gen": f"all(({cmp_src}) for i in (1, 2))"}[ctx]
     return {"kind": "stream", "engine": engine, "op": op, "pos": pos, "src": src, "cmp": cmp_src, "ctx": ctx,
             "lacks_name": lacks_name, "via": via, "sources": sources}
 
